@@ -274,7 +274,7 @@ Definition snapshot (s : st) : val :=
 
 Fixpoint replay (g : gates) (s : st) (cs : list val) (acc : list val) : option (st * list val) :=
   match cs with
-  | [] => Some (s, rev acc)
+  | [] => Some (s, frev acc)
   | c :: r => match apply_cmd g s c with
               | Some s1 => replay g s1 r (snapshot s1 :: acc)
               | None => None
